@@ -1,6 +1,10 @@
 # orchestrator configuration of the C20 check (loaded by tools/props.py)
+from stack import FULL_STACK, FULL_DEPS, QUIC_STACK, QUIC_DEPS
+
 SPEC = dict(
     pkg="./harness/c20",
+    instrument=FULL_STACK + QUIC_STACK,
+    deps=FULL_DEPS + QUIC_DEPS,
     level="exploration",
     level_text=("seeded search over (a) request/record sequences applied to the exported BlackHoleSuccessCounter with small "
                 "drawn N and MinSuccesses, compared event by event with a reference detector written from the statement, "
